@@ -75,8 +75,73 @@ def run(sid, props):
     json.dump(meta, open(os.path.join(d, "meta.json"), "w"), indent=1)
 
 
+NOTES = {
+    "C01-a": ("edns_increment_offset checked against the packet end instead of the OPT data end", "caught at once (implementation panics, model returns an error)"),
+    "C02-a": ("label check `c < b' '` instead of is_ascii_control: DEL accepted", "caught at once (accepted but not well-formed)"),
+    "C03-a": ("OPT-skipping walk decrements the count before testing it: last record lost when OPT is second to last", "caught at once"),
+    "C04-a": ("question() no longer lower-cases when it answers from the cache", "caught at once (getter orders exercise the cache)"),
+    "C05-a": ("copy_uncompressed_name returns the end of the LAST pointer: SOA through 2 hops corrupt", "caught at once"),
+    "C06-a": ("SuffixDict guard `>=` became `>`: a suffix first written at output offset 16384 is remembered", "MISSED at first; added the pointer-limit family (suffix first emitted at every offset 16381..16388, whole name and inner label) - now caught"),
+    "C07-a": ("replace_raw folds the case of the packet byte only: upper-case source never matches", "caught at once"),
+    "C08-a": ("resize_rr shifts offset_edns only for records of earlier sections", "caught at once (view differs from a fresh parse)"),
+    "C09-a": ("set_raw_name without the trailing recompute_rr: stale name_end for the next operation on the same item", "first run: correspondence broke, no failing input; walks now apply up to three operations and field reads to the same item - now caught with an input"),
+    "C10-a": ("insert_rr size test moved before the decompression", "first run: correspondence broke, no failing input; added compressed packets whose pointer-free form is 7900-9000 bytes - now caught with an input"),
+    "C11-a": ("delete() without recompute_rr after in-place decompression", "caught at once"),
+    "C12-a": ("set_flags mask built from named constants: Z bit not written", "caught at once (exhaustive over the 65536 words)"),
+    "C13-a": ("TXT chunk count len/255+1: extra empty string at multiples of 255", "caught at once (boundary lengths 254/255/256/510)"),
+    "C14-a": ("lower-casing folded into raw_name_to_str with bound 25: 'Z' kept", "caught at once"),
+    "C15-a": ("C `name` accessor returns early on an empty name: buffer not terminated for root owners", "caught at once (canary/termination check of the C driver)"),
+    "C16-a": ("C error served from a process-wide table keyed by error variant", "caught at once (schedules) and by the ambient inventory"),
+    "C17-a": ("per-thread scratch SuffixDict not cleared when a rename fails", "first run: only the regenerated inventory obligation broke (new thread_local), no failing input; added failed-rename-then-operation pairs and mixed operation pairs - now caught with an input"),
+    "C18-a": ("pointer-to-pointer hops escape the 16-hop budget", "first run: correspondence broke, no failing input; added runs of back-to-back pointers in opaque data named by every record - now caught above the proved bound"),
+    "C01-b": ("parse_opt checks the remaining length before skipping the OPT header", "caught at once"),
+    "C02-b": ("check_uncompressed_name no longer counts the root byte: 256-byte DNAME target accepted", "MISSED at first; the 253..257-byte and 62..64-byte limits are now generated in every name position (question, owner, NS/CNAME/PTR, MX, SOA x2, DNAME) - now caught"),
+    "C03-b": ("raw_name_to_str stops at the 16th pointer", "caught (1 case); added 14..16-hop chains through owner, NS, MX, SOA, PTR names - 4 cases now"),
+    "C04-b": ("question_raw0 locates type/class with the uncompressed length", "caught (1 case, header-pointer question); added header-pointer questions followed by records / OPT - 9 cases now"),
+    "C05-b": ("final_offset.replace(): as C05-a by another route", "caught at once"),
+    "C06-b": ("compress treats DNAME data as a compressible name", "caught at once"),
+    "C07-b": ("replace_raw applies the 255 limit before knowing whether the name matches", "caught at once"),
+    "C08-b": ("set_raw_name no longer clears the question cache (equal-length rename)", "caught at once"),
+    "C09-b": ("RRIterator::recompute returns early when name_end did not move", "caught (2 cases); added records with a full owner and compressed data first in their section - 4 cases now"),
+    "C10-b": ("current_section() errors on a question-less object after resize_rr moved the bytes", "MISSED by C10 at first (C08 caught it); C10 now has question-less histories and checks that a walk whose mutating actions all failed left the message unchanged - now caught"),
+    "C11-b": ("question cursor offset_next uses the record header size", "MISSED by C11 at first (C08 and C09 caught it); C11 now deletes the question after an earlier operation decompressed the object - now caught"),
+    "C12-b": ("set_opcode helper does not mask the shifted argument: bit 4 lands on QR", "caught at once"),
+    "C13-b": ("253 limit applied to the whole output buffer: SOA with two long names, MX with a 252-byte name", "caught at once"),
+    "C14-b": ("predicted-size check counts the zone for names ending in a dot", "caught at once"),
+    "C15-b": ("raw_packet refuses a packet of exactly 8192 bytes", "MISSED at first; added copy-out of 8190..9000-byte packets under stated capacities 8190/8191/8192 (and the oracle now computes the expected refusal) - now caught"),
+    "C16-b": ("64 process-wide error slots handed out round-robin", "first run: only the inventory obligation broke, no failing input; added schedules with 70 and 140 live threads - now caught with an input"),
+    "C17-b": ("thread-local name scratch buffer not cleared when replace_raw fails", "caught at once (by the families added for C17-a)"),
+    "C18-b": ("every pointer target validated recursively: 2^depth steps", "caught at once"),
+}
+
+
+def report():
+    """Apply every kept change in turn, run its property's quick check, write seeded/README.md."""
+    rows = []
+    for mp in sorted(__import__("glob").glob(os.path.join(V, "seeded", "*", "meta.json"))):
+        sid = os.path.basename(os.path.dirname(mp))
+        run(sid, [])
+        m = json.load(open(mp))
+        r = m["check_results"][m["property"]]
+        line = next((l for l in r["lines"] if l.startswith("VIOLATION")), "")
+        status = "not reported" if r["exit"] != 1 else ("reported, no failing input" if "no-failing-input-found" in line else "reported with a failing input")
+        what, hist = NOTES.get(sid, ("", ""))
+        rows.append("| %s | %s | %s | %s | %s |" % (sid, m["property"], what, status, hist))
+    out = ["# Seeded changes", "",
+           "Each directory holds a change written by an independent sub-agent that was given only the text of one property and a scratch",
+           "worktree: `patch.diff` (applies to /repo's pinned source with `git -C /repo apply`), `seed_demo.rs` (an integration test that fails",
+           "with the change and passes without it), `SEED.md` (the agent's notes) and `meta.json` (what was confirmed here: it compiles, the 46",
+           "tests pass, the demo fails with / passes without; and what the checks reported). None of them is ever committed to /repo.", "",
+           "The table is regenerated by `python3 tools/seedrun.py report` (applies each patch, runs the quick check of its property, undoes it).", "",
+           "| id | property | the change | quick check now | history |", "|---|---|---|---|---|"] + rows
+    open(os.path.join(V, "seeded", "README.md"), "w").write("\n".join(out) + "\n")
+    print("\n".join(rows))
+
+
 if __name__ == "__main__":
-    if sys.argv[1] == "collect":
+    if sys.argv[1] == "report":
+        report()
+    elif sys.argv[1] == "collect":
         collect(sys.argv[2], sys.argv[3], sys.argv[4])
     else:
         run(sys.argv[2], sys.argv[3:])
